@@ -324,6 +324,9 @@ class Translator(object):
     def lvalue(self, e):
         if e['type'] == 'Identifier':
             return ast.Name(id=e['name'], ctx=ast.Store())
+        if e['type'] == 'ArrayPattern' and all(x is not None and x['type'] == 'Identifier' for x in e['elements']):
+            # [a, b] = [x, y]: the right-hand side is evaluated first, as in Python's tuple assignment
+            return ast.Tuple(elts=[ast.Name(id=x['name'], ctx=ast.Store()) for x in e['elements']], ctx=ast.Store())
         if e['type'] == 'MemberExpression' and e['computed']:
             return ast.Subscript(value=self.expr(e['object']), slice=self.expr(e['property']), ctx=ast.Store())
         if e['type'] == 'MemberExpression' and not e['computed'] and e['property']['name'] not in ('length', 'prototype', 'constructor', '__proto__'):
@@ -517,6 +520,9 @@ class Translator(object):
                 if o['type'] == 'Identifier' and o['name'] in self.required:
                     # f of a module bound by `const m = require('./m.js')`: a call by contract of that module's function
                     return _loc(ast.Call(func=ast.Attribute(value=ast.Name(id=o['name'], ctx=ast.Load()), attr=m, ctx=ast.Load()), args=[self.expr(a) for a in args], keywords=[]), e)
+                if m == 'hasOwnProperty' and len(args) == 1:
+                    # o.hasOwnProperty(k) on a plain object used as a map: k in o
+                    return _loc(ast.Compare(left=self.expr(args[0]), ops=[ast.In()], comparators=[self.expr(o)]), e)
                 if m == 'unshift' and len(args) == 1:
                     return _loc(ast.Call(func=ast.Attribute(value=self.expr(o), attr='insert', ctx=ast.Load()), args=[ast.Constant(value=0), self.expr(args[0])], keywords=[]), e)
                 if m == 'concat' and len(args) == 1:
